@@ -92,6 +92,7 @@ def shards(tier):
     out = [("single", s) for s in seq_shards(SIGMA, 4 if tier == "quick" else 5)]
     out += [("lists", i) for i in range(len(CATALOGUE))]
     out += [("history", 0)]
+    out += [("patterns", n, first) for n in range(5, (8 if tier == "quick" else 9)) for first in range(3)]
     return out
 
 
@@ -278,6 +279,20 @@ def run_shard(shard, tier, acc):
     kind = shard[0]
     if kind == "history":
         return check_history(acc)
+    if kind == "patterns":
+        # names of middling length: every case pattern of 5..7 (thorough ..8) words with no, one or two commas
+        _, n, first = shard
+        rep = ["AA", "bb", "{cc}"]
+        for pat in itertools.product(range(3), repeat=n - 1):
+            words = [rep[first]] + [rep[i] for i in pat]
+            for commas in [()] + [(i,) for i in range(1, n)] + [(i, j) for i in range(1, n) for j in range(i + 1, n)]:
+                name = "".join((("," if k in commas else "") + " " if k else "") + w for k, w in enumerate(words))
+                if not in_domain(name):
+                    acc.count("outside_domain")
+                    continue
+                acc.count("pattern_names")
+                check_value([name], acc, do_stack=(len(commas) < 2 or n == 5))
+        return
     if kind == "single":
         for toks in seq_iter(SIGMA, shard[1]):
             name = "".join(toks)
